@@ -392,3 +392,9 @@ Proof. simpl. repeat split; intros k' H; repeat (destruct H as [H|H]; subst; try
 
 Example ex_dop_wf : Forall (dop_wf ex_V ex_V) [DIOr (DSCompat [(PInt 3, PInt 3)]); DSetItem (PInt (-4)) PNone].
 Proof. repeat constructor. Qed.
+
+Example ex_dinit : dp_init ex_V ex_V false [(PNone, PInt 3); (PInt 0, PNone)] = Ok [(PInt 0, PInt 0)].
+Proof. vm_compute. reflexivity. Qed.
+
+Example ex_dvalid : Forall (dvalid ex_V ex_V) [(PInt 0, PInt 0)].
+Proof. repeat constructor. Qed.
